@@ -62,60 +62,16 @@ theorem compile_no_internal (srcs : List Str) : ∀ why, compile srcs ≠ .inter
       simp only [hf, foldAll_valid asts bs st hc bs' outs' hf, if_true]
       intro h; cases h
 
-/-- what `compile` returns passes the `Recipe` validity check; it is the inlined elaboration -/
+/-- what `compile` returns passes the `Recipe` validity check -/
 theorem compile_ok_valid (srcs : List Str) (bs : List Block) (h : compile srcs = .ok bs) : checkBlocks [] bs = true := by
-  unfold compile elabBlocks at h
-  cases hp : parseAll 0 srcs with
-  | error e =>
-    rw [hp] at h
-    have : e = .ok bs := h
-    rcases parseAll_error srcs 0 e hp with ⟨b, hb⟩ | ⟨b, hb⟩ <;> rw [hb] at this <;> cases this
-  | ok asts =>
-    rw [hp] at h
-    change (match compileBlocks 0 {} asts with
-      | .error e => e
-      | .ok (blocks, st) => _) = _ at h
-    cases hc : compileBlocks 0 {} asts with
-    | error e =>
-      rw [hc] at h
-      have : e = .ok bs := h
-      exact absurd (by rw [hc, this]) ((C01.elab_no_other_error asts).2.2.2 bs)
-    | ok p =>
-      obtain ⟨bs0, st⟩ := p
-      rw [hc] at h
-      obtain ⟨bs', outs', hf⟩ := foldAll_ok asts bs0 st hc
-      have hv := foldAll_valid asts bs0 st hc bs' outs' hf
-      simp only [hf, hv, if_true] at h
-      cases h
-      exact hv
+  obtain ⟨asts, bs0, st, outs', _, hc, _, hf⟩ := compile_ok_phases h
+  exact foldAll_valid asts bs0 st hc bs outs' hf
 
 /-- the result is structurally valid (`C03.ValidS`: every embedded copy IS an earlier sub recipe root), which is
     the hypothesis under which scaling keeps validity (`C03.scale_valid`, C08.2) -/
 theorem compile_validS (srcs : List Str) (bs : List Block) (h : compile srcs = .ok bs) : C03.ValidS [] bs := by
-  unfold compile elabBlocks at h
-  cases hp : parseAll 0 srcs with
-  | error e =>
-    rw [hp] at h
-    have : e = .ok bs := h
-    rcases parseAll_error srcs 0 e hp with ⟨b, hb⟩ | ⟨b, hb⟩ <;> rw [hb] at this <;> cases this
-  | ok asts =>
-    rw [hp] at h
-    change (match compileBlocks 0 {} asts with
-      | .error e => e
-      | .ok (blocks, st) => _) = _ at h
-    cases hc : compileBlocks 0 {} asts with
-    | error e =>
-      rw [hc] at h
-      have : e = .ok bs := h
-      exact absurd (by rw [hc, this]) ((C01.elab_no_other_error asts).2.2.2 bs)
-    | ok p =>
-      obtain ⟨bs0, st⟩ := p
-      rw [hc] at h
-      obtain ⟨bs', outs', hf⟩ := foldAll_ok asts bs0 st hc
-      have hv := foldAll_valid asts bs0 st hc bs' outs' hf
-      simp only [hf, hv, if_true] at h
-      cases h
-      exact validS_of_scoped _ (foldAll_scoped asts bs0 st hc _ outs' hf)
+  obtain ⟨asts, bs0, st, outs', _, hc, _, hf⟩ := compile_ok_phases h
+  exact validS_of_scoped _ (foldAll_scoped asts bs0 st hc _ outs' hf)
 
 /-- hence a compiled recipe can be scaled and re-constructed: `Recipe.scale` never raises on it -/
 theorem compile_scale_ok (srcs : List Str) (bs : List Block) (h : compile srcs = .ok bs) (k : Num) :
@@ -127,6 +83,66 @@ theorem compile_scale_ok (srcs : List Str) (bs : List Block) (h : compile srcs =
 theorem compile_refsResolve (srcs : List Str) (bs : List Block) (h : compile srcs = .ok bs) : RefsResolve bs := by
   rw [← mkRecipes_ok_iff]
   simp [mkRecipes, compile_ok_valid srcs bs h]
+
+-- ================================================================ every node is accepted by its constructor
+/-- a tree the Python constructors build without raising: every step accepts its inputs (`mkStep`: no multi-output
+    sub recipe below a step), every sub recipe accepts its body and has a name (`mkSub`), every reference selects an
+    existing output of the sub recipe it holds (`mkReference`), recursively — also inside embedded copies -/
+inductive Constructible : Tree → Prop
+  | ingredient (d : SVS) (q : Option Quantity) : Constructible (.ingredient d q)
+  | step (d : SVS) (inputs : List Tree) : (∀ t ∈ inputs, Constructible t) → mkStep d inputs = .ok (.step d inputs) →
+      Constructible (.step d inputs)
+  | reference (s : Tree) (idx : Nat) (a : Amount) : Constructible s →
+      mkReference s idx a = .ok (.reference s idx a) → Constructible (.reference s idx a)
+  | sub (b : Tree) (ns : List SVS) (sh : Bool) : Constructible b → mkSub b ns sh = .ok (.sub b ns sh) →
+      Constructible (.sub b ns sh)
+
+mutual
+theorem constructible_of_wfB : ∀ t : Tree, t.wfB = true → Constructible t
+  | .ingredient d q, _ => .ingredient d q
+  | .step d i, h => by
+    simp only [Tree.wfB] at h
+    obtain ⟨h1, h2⟩ := constructible_of_wfBList i h
+    refine .step d i h1 ?_
+    rw [mkStep_ok_iff]
+    intro t ht
+    exact (Tree.canBeChild_iff t).mp (h2 t ht)
+  | .reference s j a, h => by
+    simp only [Tree.wfB, Bool.and_eq_true, decide_eq_true_eq] at h
+    exact .reference s j a (constructible_of_wfB s h.2) ((mkReference_ok_iff s j a).mpr h.1)
+  | .sub b ns sh, h => by
+    simp only [Tree.wfB, Bool.and_eq_true] at h
+    refine .sub b ns sh (constructible_of_wfB b h.2) ?_
+    rw [(mkSub_refuses_iff b ns sh).2.2]
+    refine ⟨(Tree.canBeChild_iff b).mp h.1.1, ?_⟩
+    intro hn; rw [hn] at h; simp at h
+theorem constructible_of_wfBList : ∀ ts : List Tree, Tree.wfBList ts = true →
+    (∀ t ∈ ts, Constructible t) ∧ (∀ t ∈ ts, t.canBeChild = true)
+  | [], _ => ⟨by simp, by simp⟩
+  | t :: ts, h => by
+    simp only [Tree.wfBList, Bool.and_eq_true] at h
+    obtain ⟨h1, h2⟩ := constructible_of_wfBList ts h.2
+    constructor
+    · intro x hx
+      simp only [List.mem_cons] at hx
+      rcases hx with rfl | hx
+      · exact constructible_of_wfB _ h.1.2
+      · exact h1 x hx
+    · intro x hx
+      simp only [List.mem_cons] at hx
+      rcases hx with rfl | hx
+      · exact h.1.1
+      · exact h2 x hx
+end
+
+/-- **C08.1** every tree of the compiled recipe is accepted by the constructors: in particular multi-output sub
+    recipes occur only as roots (never below a step or inside another sub recipe) and every sub recipe has at least
+    one name -/
+theorem compile_constructible (srcs : List Str) (bs : List Block) (h : compile srcs = .ok bs) :
+    ∀ b ∈ bs, ∀ t ∈ b, Constructible t := by
+  obtain ⟨asts, bs0, st, outs', _, hc, _, hf⟩ := compile_ok_phases h
+  intro b hb t ht
+  exact constructible_of_wfB t (foldAll_wfAll asts bs0 st hc _ bs outs' hf t (List.mem_flatten.mpr ⟨b, hb, ht⟩))
 
 -- ================================================================ non-vacuity: a concrete two-block program
 section Examples
